@@ -1,21 +1,21 @@
 // Harness for C10: shared collections are linearizable, race-free and never self-deadlock.
 //
-//  1 sweep      every exported method of every collection type (found by reflection) is called
-//               once on a small populated instance and once on an empty one under a watchdog:
-//               timeout ⇒ `<Type>.<Method>:deadlock`, panic ⇒ `<Type>.<Method>:panic`, and after
-//               every call the instance must still answer Size() (no lock left behind).
-//  2 sequential random single-threaded histories of the point operations: implementation vs Go mirror
-//               vs Lean driver (drv_c10 runs Golib/Conc/SeqSpec.lean) — validates the mirror and the
-//               probe tables used by 3.
-//  3 stress     2–16 goroutines run seeded programs on one shared instance; the recorded history
-//               (call/return stamps) must be linearizable w.r.t. the mirror; every witness
-//               linearization is re-executed by the Lean driver, and the same history is replayed as
-//               a schedule of the proved mutex-object machine (Golib/Conc/Mutex.lean) by the driver.
-//  3b lock-step the harness holds the instance's own mutex, starts k point operations, releases it and
-//               checks the k-operation history: deterministic schedule for check-then-act (lockstep.go)
-//  4 race       a child process built with -race runs, for every type and every exported method,
-//               that method against a loop of locked mutators on a shared instance; a race report
-//               inside a point operation ⇒ `<Type>.<Method>:data-race`.
+//	1 sweep      every exported method of every collection type (found by reflection) is called
+//	             once on a small populated instance and once on an empty one under a watchdog:
+//	             timeout ⇒ `<Type>.<Method>:deadlock`, panic ⇒ `<Type>.<Method>:panic`, and after
+//	             every call the instance must still answer Size() (no lock left behind).
+//	2 sequential random single-threaded histories of the point operations: implementation vs Go mirror
+//	             vs Lean driver (drv_c10 runs Golib/Conc/SeqSpec.lean) — validates the mirror and the
+//	             probe tables used by 3.
+//	3 stress     2–16 goroutines run seeded programs on one shared instance; the recorded history
+//	             (call/return stamps) must be linearizable w.r.t. the mirror; every witness
+//	             linearization is re-executed by the Lean driver, and the same history is replayed as
+//	             a schedule of the proved mutex-object machine (Golib/Conc/Mutex.lean) by the driver.
+//	3b lock-step the harness holds the instance's own mutex, starts k point operations, releases it and
+//	             checks the k-operation history: deterministic schedule for check-then-act (lockstep.go)
+//	4 race       a child process built with -race runs, for every type and every exported method,
+//	             that method against a loop of locked mutators on a shared instance; a race report
+//	             inside a point operation ⇒ `<Type>.<Method>:data-race`.
 //
 // None of this stands in for the theorems (Props/C10.lean) or the regenerated lock tables
 // (Props/C10Gen.lean); it ties the model to the code and produces replays.
@@ -232,16 +232,16 @@ type stressFail struct {
 }
 
 type stressOut struct {
-	Rounds   int            `json:"rounds"`
-	Overlap  int            `json:"overlapping"`
-	Ops      map[string]int `json:"ops"`
-	Fails    []stressFail   `json:"fails"`
-	Witness  []string       `json:"witness_lines"`  // sequential driver lines of witness linearizations
-	WFacts   []string       `json:"witness_facts"`  // facts the mirror computed along them
-	Machine  []string       `json:"machine_lines"`  // schedules for the mutex-object machine
-	MFacts   []string       `json:"machine_facts"`  // per schedule: the returns in order of the ret actions
-	Samples  []interface{}  `json:"samples"`
-	Goro     map[string]int `json:"goroutines"`
+	Rounds  int            `json:"rounds"`
+	Overlap int            `json:"overlapping"`
+	Ops     map[string]int `json:"ops"`
+	Fails   []stressFail   `json:"fails"`
+	Witness []string       `json:"witness_lines"` // sequential driver lines of witness linearizations
+	WFacts  []string       `json:"witness_facts"` // facts the mirror computed along them
+	Machine []string       `json:"machine_lines"` // schedules for the mutex-object machine
+	MFacts  []string       `json:"machine_facts"` // per schedule: the returns in order of the ret actions
+	Samples []interface{}  `json:"samples"`
+	Goro    map[string]int `json:"goroutines"`
 }
 
 func overlapping(h []hop) bool {
@@ -391,9 +391,9 @@ func directedRounds(f *family) []directedSet {
 // exactly these returns: every observed history is a behaviour of the machine the theorems are about.
 func machineSchedule(f *family, hist []hop, w []int, facts []string) (string, string) {
 	type ev struct {
-		t    int64
-		ret  bool
-		op   int
+		t   int64
+		ret bool
+		op  int
 	}
 	var evs []ev
 	for i, h := range hist {
